@@ -39,6 +39,11 @@ pub enum BCall {
     VerifyVersion(bool),
     TcpNodelay(bool),
     ConnectTimeoutMs(u64),
+    /// connect_timeout(Duration::from_secs(..)): "no timeout" is commonly spelt Duration::MAX
+    ConnectTimeoutSecs(u64),
+    /// the application asks the builder for its ISI at this point (to log it, to connect once
+    /// already) and carries on configuring the same builder afterwards
+    Isi,
     /// one of the ten single-flag setters, by index
     Flag(u8, bool),
     /// wholesale replacement (raw bits, truncated to defined flags by the library type)
@@ -163,6 +168,8 @@ fn model_of(calls: &[BCall]) -> ModelB {
             BCall::VerifyVersion(_)
             | BCall::TcpNodelay(_)
             | BCall::ConnectTimeoutMs(_)
+            | BCall::ConnectTimeoutSecs(_)
+            | BCall::Isi
             | BCall::RelaySelectHost(_)
             | BCall::RelayAdmin(_)
             | BCall::RelaySpec(_)
@@ -223,6 +230,11 @@ fn apply(calls: &[BCall], remote: SocketAddr) -> insim::Builder {
             BCall::VerifyVersion(x) => b.verify_version(*x),
             BCall::TcpNodelay(x) => b.tcp_nodelay(*x),
             BCall::ConnectTimeoutMs(ms) => b.connect_timeout(Duration::from_millis(*ms)),
+            BCall::ConnectTimeoutSecs(secs) => b.connect_timeout(Duration::from_secs(*secs)),
+            BCall::Isi => {
+                let _ = b.isi();
+                b
+            },
             BCall::Flag(i, on) => match i % 10 {
                 0 => b.isi_flag_mci(*on),
                 1 => b.isi_flag_local(*on),
@@ -299,7 +311,10 @@ fn rand_name(rng: &mut Rng, max: usize) -> String {
 }
 
 fn gen_call(rng: &mut Rng) -> BCall {
-    match rng.below(24) {
+    match rng.below(28) {
+        24 => BCall::ConnectTimeoutMs(*rng.pick(&[1000u64, 10_000, 3_600_000])),
+        25 => BCall::ConnectTimeoutSecs(*rng.pick(&[u64::MAX, 1 << 63, u64::MAX / 1000, 86_400])),
+        26 | 27 => BCall::Isi,
         0 => BCall::Tcp,
         1 => BCall::Udp(match rng.below(3) {
             0 => None,
